@@ -1,60 +1,107 @@
 """E5 (quorum part): numeric constants of operon_ai/topology/quorum.py -> lean/Operon/Gen/QuorumConsts.lean.
 
-Pure `ast` analysis (the module under test is not imported, so this also works on a tree that no longer
-imports).  Narrow on purpose: every fact has one recognised shape; anything else is emitted as an *undefined
-identifier* `extraction_failed_<name>`, so that the Lean model, the driver and every theorem of C06 stop
-elaborating (fail closed) instead of silently using a stale number.
+The constants are obtained by EVALUATING the code under test, three ways, cross-checked:
 
-Facts (all exact rationals: a float literal `0.666` is read through its shortest decimal repr = 333/500):
-  majorityThreshold, supermajorityThreshold, confidenceMin   class attributes of QuorumSensing
-  priorPermit, priorBlock, posteriorFallback                 `_bayesian_vote`: the two priors, the total<=0 fallback
-  likBase, likGain                                           `likelihood = likBase + (vote.confidence * likGain)`
-                                                             (every assignment to `likelihood` must agree)
-  adjBase, adjCentre                                         `_bayesian_update`: `adjBase + (likelihood - adjCentre) * weight`
-  emergencyDefaultThreshold, emergencyMinVoters,             EmergencyQuorum.__init__: default of `emergency_threshold`,
-  emergencyStrategyName, emergencyPassesThreshold            keywords of the `super().__init__(...)` call
+  (E) evaluation of the imported module
+        class attributes MAJORITY_THRESHOLD / SUPERMAJORITY_THRESHOLD / CONFIDENCE_MIN (getattr on the class);
+        EmergencyQuorum: default of `emergency_threshold` (inspect.signature) and, by constructing probe objects,
+        the strategy / min_voters it configures and whether the parameter arrives as `custom_threshold`.
+  (A) `ast` to find WHICH expression feeds the Bayesian likelihood / adjusted likelihood / priors / fallback, whose
+        leaves are then evaluated in the module's namespace (literals, module constants, class constants through
+        `self.X` / `cls.X` / `QuorumSensing.X`, arithmetic of those).  Hoisting a literal into a named constant,
+        writing `1 / 2`, commuting operands: all the same to this route.
+  (B) behavioural measurement: `_bayesian_update` and `_bayesian_vote` are run on probe ballots and the constants are
+        solved from the posteriors (then re-verified on mixed ballots incl. clamped ones).  Independent of how the
+        formula is written, as long as those two methods keep their call shape.
+  For the Bayesian group: (A) and (B) must agree when both succeed; one alone is accepted when the other does not
+  apply (shape not found / method not callable); a POSITIVE inconsistency (two different likelihood formulas, (A)
+  and (B) disagreeing, behaviour that does not fit the model's formula) is not accepted.
+
+The generated Lean file is ALWAYS well-formed: a fact that could not be established is emitted with its documented
+value and `recognised_<name> := false`; `extractionComplete` is the conjunction.  Only the theorem
+`c06_constants_table` (which states `extractionComplete = true`) then stops checking - the model, the driver and the
+other theorems keep building, and the correspondence / oracle run against the documented constants (fail closed:
+the check cannot pass, but the failing-input search still has a model to work with).
 """
 from __future__ import annotations
 
 import ast
+import contextlib
+import inspect
+import io
 from fractions import Fraction
 from pathlib import Path
 
 OUT_REL = "Operon/Gen/QuorumConsts.lean"
 
+# documented values, used only as stand-ins when a fact could not be established (never silently: recognised_* = false)
+DOCUMENTED = {
+    "majorityThreshold": Fraction(1, 2), "supermajorityThreshold": Fraction(333, 500), "confidenceMin": Fraction(3, 10),
+    "priorPermit": Fraction(1, 2), "priorBlock": Fraction(1, 2), "posteriorFallback": Fraction(1, 2),
+    "likBase": Fraction(1, 2), "likGain": Fraction(2, 5), "adjBase": Fraction(1, 2), "adjCentre": Fraction(1, 2),
+    "emergencyDefaultThreshold": Fraction(3, 10), "emergencyMinVoters": 1, "emergencyStrategyName": "THRESHOLD",
+    "emergencyPassesThreshold": True,
+}
+BAYES = ["priorPermit", "priorBlock", "posteriorFallback", "likBase", "likGain", "adjBase", "adjCentre"]
+
 
 class Unrecognised(Exception):
-    pass
+    """the route does not apply (shape not found, method not callable)"""
 
 
-def num(node) -> Fraction:
-    """exact value of a numeric constant expression (literals, unary minus, + - * /)"""
-    if isinstance(node, ast.Constant) and isinstance(node.value, (int, float)) and not isinstance(node.value, bool):
-        f = Fraction(repr(node.value))
-        return f
-    if isinstance(node, ast.UnaryOp) and isinstance(node.op, (ast.USub, ast.UAdd)):
-        v = num(node.operand)
-        return -v if isinstance(node.op, ast.USub) else v
-    if isinstance(node, ast.BinOp) and isinstance(node.op, (ast.Add, ast.Sub, ast.Mult, ast.Div)):
-        a, b = num(node.left), num(node.right)
-        if isinstance(node.op, ast.Add):
-            return a + b
-        if isinstance(node.op, ast.Sub):
-            return a - b
-        if isinstance(node.op, ast.Mult):
-            return a * b
-        if b == 0:
-            raise Unrecognised("division by zero in constant")
-        return a / b
-    raise Unrecognised(f"not a numeric constant: {ast.dump(node)[:80]}")
+class Inconsistent(Exception):
+    """the route found something that contradicts the model's reading of the code: never accepted"""
 
 
-def is_num(node) -> bool:
-    try:
-        num(node)
-        return True
-    except Unrecognised:
-        return False
+def frac(x) -> Fraction:
+    if isinstance(x, bool) or not isinstance(x, (int, float)):
+        raise Unrecognised(f"not a number: {x!r}")
+    if isinstance(x, float) and (x != x or x in (float("inf"), float("-inf"))):
+        raise Unrecognised("not finite")
+    return Fraction(repr(x))
+
+
+# ---------------------------------------------------------------------------------------------------------------
+# (A) ast + evaluation of the leaves in the module's namespace
+# ---------------------------------------------------------------------------------------------------------------
+class Namespace:
+    def __init__(self, module, cls):
+        self.module, self.cls = module, cls
+
+    def num(self, node) -> Fraction:
+        """exact value of a constant expression: literals, names / attributes that evaluate to numbers, + - * /"""
+        if isinstance(node, ast.Constant):
+            return frac(node.value)
+        if isinstance(node, ast.Name):
+            if self.module is not None and node.id in vars(self.module):
+                return frac(vars(self.module)[node.id])
+            raise Unrecognised(f"name {node.id} is not a module constant")
+        if isinstance(node, ast.Attribute) and isinstance(node.value, ast.Name) and self.cls is not None:
+            if node.value.id in ("self", "cls", self.cls.__name__, "QuorumSensing") and hasattr(self.cls, node.attr):
+                return frac(getattr(self.cls, node.attr))
+            raise Unrecognised(f"attribute {ast.unparse(node)} is not a class constant")
+        if isinstance(node, ast.UnaryOp) and isinstance(node.op, (ast.USub, ast.UAdd)):
+            v = self.num(node.operand)
+            return -v if isinstance(node.op, ast.USub) else v
+        if isinstance(node, ast.BinOp) and isinstance(node.op, (ast.Add, ast.Sub, ast.Mult, ast.Div)):
+            a, b = self.num(node.left), self.num(node.right)
+            if isinstance(node.op, ast.Add):
+                return a + b
+            if isinstance(node.op, ast.Sub):
+                return a - b
+            if isinstance(node.op, ast.Mult):
+                return a * b
+            if b == 0:
+                raise Unrecognised("division by zero in constant")
+            return a / b
+        raise Unrecognised(f"not a constant expression: {ast.dump(node)[:80]}")
+
+    def is_num(self, node) -> bool:
+        try:
+            self.num(node)
+            return True
+        except Unrecognised:
+            return False
 
 
 def _cls(tree, name):
@@ -71,168 +118,253 @@ def _fn(cls, name):
     raise Unrecognised(f"{cls.name}.{name} not found")
 
 
-def _class_attr(cls, name) -> Fraction:
-    vals = []
-    for n in cls.body:
-        if isinstance(n, ast.Assign) and any(isinstance(t, ast.Name) and t.id == name for t in n.targets):
-            vals.append(num(n.value))
-        if isinstance(n, ast.AnnAssign) and isinstance(n.target, ast.Name) and n.target.id == name and n.value is not None:
-            vals.append(num(n.value))
-    if len(vals) != 1:
-        raise Unrecognised(f"{name}: {len(vals)} class-level assignments")
-    return vals[0]
-
-
 def _assigns(fn, target):
-    """all simple assignments `target = value` anywhere in fn, in source order"""
-    out = []
-    for n in ast.walk(fn):
-        if isinstance(n, ast.Assign) and len(n.targets) == 1 and isinstance(n.targets[0], ast.Name) \
-                and n.targets[0].id == target:
-            out.append(n)
+    out = [n for n in ast.walk(fn) if isinstance(n, ast.Assign) and len(n.targets) == 1
+           and isinstance(n.targets[0], ast.Name) and n.targets[0].id == target]
     return sorted(out, key=lambda n: (n.lineno, n.col_offset))
 
 
-def _is_attr_of_any_name(node, attr):
-    return isinstance(node, ast.Attribute) and node.attr == attr and isinstance(node.value, ast.Name)
+def ast_bayes(tree, ns: Namespace) -> dict:
+    qs = _cls(tree, "QuorumSensing")
+    vote, upd = _fn(qs, "_bayesian_vote"), _fn(qs, "_bayesian_update")
+    out = {}
+
+    def single(fn, target):
+        xs = [a for a in _assigns(fn, target) if ns.is_num(a.value)]
+        vals = {ns.num(a.value) for a in xs}
+        if not xs:
+            raise Unrecognised(f"no constant assignment to {target}")
+        if len(vals) != 1:
+            raise Inconsistent(f"{target} is assigned {len(vals)} different constants")
+        return vals.pop()
+
+    out["priorPermit"] = single(vote, "prior_permit")
+    out["priorBlock"] = single(vote, "prior_block")
+    out["posteriorFallback"] = single(vote, "posterior_permit")
+
+    def affine(node, is_var):
+        if not (isinstance(node, ast.BinOp) and isinstance(node.op, ast.Add)):
+            raise Unrecognised("likelihood is not a sum")
+        for k, prod in ((node.left, node.right), (node.right, node.left)):
+            if ns.is_num(k) and isinstance(prod, ast.BinOp) and isinstance(prod.op, ast.Mult):
+                for v, g in ((prod.left, prod.right), (prod.right, prod.left)):
+                    if is_var(v) and ns.is_num(g):
+                        return ns.num(k), ns.num(g)
+        raise Unrecognised("likelihood is not K + confidence * G")
+
+    liks = _assigns(vote, "likelihood")
+    if not liks:
+        raise Unrecognised("no assignment to likelihood")
+    vals = {affine(a.value, lambda v: isinstance(v, ast.Attribute) and v.attr == "confidence") for a in liks}
+    if len(vals) != 1:
+        raise Inconsistent(f"likelihood is computed in {len(vals)} different ways")
+    out["likBase"], out["likGain"] = vals.pop()
+
+    adjs = [a for a in _assigns(upd, "adjusted_likelihood") if isinstance(a.value, ast.BinOp)]
+    if len(adjs) != 1:
+        raise Unrecognised(f"{len(adjs)} arithmetic assignments to adjusted_likelihood")
+    node = adjs[0].value
+    if isinstance(node.op, ast.Add):
+        for k, prod in ((node.left, node.right), (node.right, node.left)):
+            if ns.is_num(k) and isinstance(prod, ast.BinOp) and isinstance(prod.op, ast.Mult):
+                for d, w in ((prod.left, prod.right), (prod.right, prod.left)):
+                    if isinstance(w, ast.Name) and w.id == "weight" and isinstance(d, ast.BinOp) \
+                            and isinstance(d.op, ast.Sub) and isinstance(d.left, ast.Name) \
+                            and d.left.id == "likelihood" and ns.is_num(d.right):
+                        out["adjBase"], out["adjCentre"] = ns.num(k), ns.num(d.right)
+                        return out
+    raise Unrecognised("adjusted_likelihood is not K + (likelihood - C) * weight")
 
 
-def _affine_in(node, is_var):
-    """node == K + (var * G) in any operand order -> (K, G)"""
-    if not (isinstance(node, ast.BinOp) and isinstance(node.op, ast.Add)):
-        raise Unrecognised("not a sum")
-    for k, prod in ((node.left, node.right), (node.right, node.left)):
-        if is_num(k) and isinstance(prod, ast.BinOp) and isinstance(prod.op, ast.Mult):
-            for v, g in ((prod.left, prod.right), (prod.right, prod.left)):
-                if is_var(v) and is_num(g):
-                    return num(k), num(g)
-    raise Unrecognised("not K + var * G")
+# ---------------------------------------------------------------------------------------------------------------
+# (B) behavioural measurement of the Bayesian constants
+# ---------------------------------------------------------------------------------------------------------------
+def _rat(x, den=1000) -> Fraction:
+    f = Fraction(float(x)).limit_denominator(den)
+    if abs(float(f) - float(x)) > 1e-9:
+        raise Unrecognised(f"{x!r} is not a small fraction")
+    return f
 
 
-def extract_facts(repo: Path) -> dict:
-    """name -> Fraction | int | str | bool | Unrecognised"""
-    facts: dict = {}
-    names = ["majorityThreshold", "supermajorityThreshold", "confidenceMin", "priorPermit", "priorBlock",
-             "posteriorFallback", "likBase", "likGain", "adjBase", "adjCentre", "emergencyDefaultThreshold",
-             "emergencyMinVoters", "emergencyStrategyName", "emergencyPassesThreshold"]
+def _clamp(x):
+    return max(Fraction(0), min(Fraction(1), x))
+
+
+def model_posterior(c: dict, permits, blocks) -> Fraction:
+    """the model's formula (Operon.Quorum.belief / posterior) on (confidence, weight) pairs"""
+    pp, pb = c["priorPermit"], c["priorBlock"]
+
+    def upd(prior, lik, w):
+        return prior * _clamp(c["adjBase"] + (lik - c["adjCentre"]) * w)
+    for (cf, w) in permits:
+        lik = c["likBase"] + cf * c["likGain"]
+        pp, pb = upd(pp, lik, w), upd(pb, 1 - lik, w)
+    for (cf, w) in blocks:
+        lik = c["likBase"] + cf * c["likGain"]
+        pp, pb = upd(pp, 1 - lik, w), upd(pb, lik, w)
+    return pp / (pp + pb) if pp + pb > 0 else c["posteriorFallback"]
+
+
+def measure_bayes(module) -> dict:
+    from operon_ai.state.metabolism import ATP_Store
     try:
-        tree = ast.parse((repo / "operon_ai" / "topology" / "quorum.py").read_text())
-    except Exception as e:  # unreadable / syntax error: everything unknown
-        return {n: Unrecognised(f"cannot parse quorum.py: {e!r}") for n in names}
+        with contextlib.redirect_stdout(io.StringIO()):
+            q = module.QuorumSensing(n_agents=0, budget=ATP_Store(budget=1000, silent=True),
+                                     strategy=module.VotingStrategy.BAYESIAN, min_voters=0, silent=True)
+        upd, agg = q._bayesian_update, q._bayesian_vote
+        P, B = module.VoteType.PERMIT, module.VoteType.BLOCK
+
+        def mk(kind, cf, w):
+            return module.Vote(agent_id="probe", vote_type=kind, confidence=float(cf), weight=float(w))
+
+        def post(permits, blocks):
+            ps = [mk(P, cf, w) for cf, w in permits]
+            bs = [mk(B, cf, w) for cf, w in blocks]
+            return agg(ps + bs, ps, bs, []).weighted_score
+        adj_base = _rat(upd(1.0, 0.3, 0.0))
+        centre = None
+        for L in (Fraction(1, 2), Fraction(1, 4), Fraction(3, 4), Fraction(0), Fraction(1)):
+            r = _rat(upd(1.0, float(L), 1.0))
+            if 0 < r < 1:
+                centre = adj_base + L - r
+                break
+        if centre is None:
+            raise Unrecognised("adjusted likelihood saturated on every probe")
+        s0 = _rat(post([], []))
+        if not 0 < s0 < 1:
+            raise Unrecognised("prior share outside (0,1)")
+        rho = s0 / (1 - s0)
+        span = 2 * adj_base + 1 - 2 * centre            # up + down of one vote of weight 1 when nothing is clamped
+
+        def lik(cf):
+            p = _rat(post([(cf, 1)], []), 100000)
+            if not 0 < p < 1:
+                raise Unrecognised("single-vote posterior saturated")
+            ratio = p / (rho * (1 - p))
+            up = span * ratio / (1 + ratio)
+            return Fraction(up - adj_base + centre).limit_denominator(1000)
+        lik0, lik1 = lik(0), lik(1)
+        fallback = _rat(post([(1, 100)], [(1, 100)]))
+        out = {"priorPermit": s0, "priorBlock": 1 - s0, "posteriorFallback": fallback, "likBase": lik0,
+               "likGain": lik1 - lik0, "adjBase": adj_base, "adjCentre": centre}
+    except (Unrecognised, Inconsistent):
+        raise
+    except Exception as e:  # private methods renamed / different call shape: this route does not apply
+        raise Unrecognised(f"probing failed: {e!r}")
+    # the measured constants must reproduce the code on ballots they were not solved from (both sides, weights that
+    # clamp, several votes); otherwise the behaviour does not fit the model's formula at all
+    probes = [([(Fraction(1, 2), 1)], []), ([], [(1, 1)]), ([(1, 2)], [(Fraction(1, 2), Fraction(1, 2))]),
+              ([(1, 1), (0, 1)], [(1, 1)]), ([(Fraction(1, 4), Fraction(1, 4))], [(1, 2), (1, 1)]),
+              ([(1, 1), (1, 1)], [(1, 1), (1, 1), (Fraction(1, 2), 1)])]
+    for ps, bs in probes:
+        want, got = float(model_posterior(out, ps, bs)), float(post(ps, bs))
+        if abs(want - got) > 1e-9:
+            raise Inconsistent(f"behaviour does not fit the model's Bayesian formula on {ps} vs {bs}: {got} != {want}")
+    return out
+
+
+# ---------------------------------------------------------------------------------------------------------------
+# (E) evaluation of class attributes and of EmergencyQuorum's constructor
+# ---------------------------------------------------------------------------------------------------------------
+def evaluate_simple(module) -> dict:
+    from operon_ai.state.metabolism import ATP_Store
+    facts: dict = {}
 
     def guard(name, thunk):
         try:
             facts[name] = thunk()
-        except Unrecognised as e:
+        except (Unrecognised, Inconsistent) as e:
             facts[name] = e
         except Exception as e:  # noqa
             facts[name] = Unrecognised(repr(e))
+    QS = module.QuorumSensing
+    guard("majorityThreshold", lambda: frac(QS.MAJORITY_THRESHOLD))
+    guard("supermajorityThreshold", lambda: frac(QS.SUPERMAJORITY_THRESHOLD))
+    guard("confidenceMin", lambda: frac(QS.CONFIDENCE_MIN))
 
-    def qs():
-        return _cls(tree, "QuorumSensing")
-
-    guard("majorityThreshold", lambda: _class_attr(qs(), "MAJORITY_THRESHOLD"))
-    guard("supermajorityThreshold", lambda: _class_attr(qs(), "SUPERMAJORITY_THRESHOLD"))
-    guard("confidenceMin", lambda: _class_attr(qs(), "CONFIDENCE_MIN"))
-
-    def first_numeric_assign(fnname, target, which=0):
-        xs = [a for a in _assigns(_fn(qs(), fnname), target) if is_num(a.value)]
-        if len(xs) <= which:
-            raise Unrecognised(f"{fnname}: no numeric assignment #{which} to {target}")
-        return num(xs[which].value)
-
-    def single_numeric_assign(fnname, target):
-        xs = [a for a in _assigns(_fn(qs(), fnname), target) if is_num(a.value)]
-        if len(xs) != 1:
-            raise Unrecognised(f"{fnname}: {len(xs)} numeric assignments to {target}")
-        return num(xs[0].value)
-
-    guard("priorPermit", lambda: single_numeric_assign("_bayesian_vote", "prior_permit"))
-    guard("priorBlock", lambda: single_numeric_assign("_bayesian_vote", "prior_block"))
-    guard("posteriorFallback", lambda: single_numeric_assign("_bayesian_vote", "posterior_permit"))
-
-    def lik():
-        xs = _assigns(_fn(qs(), "_bayesian_vote"), "likelihood")
-        if not xs:
-            raise Unrecognised("no assignment to likelihood")
-        vals = {_affine_in(a.value, lambda v: _is_attr_of_any_name(v, "confidence")) for a in xs}
-        if len(vals) != 1:
-            raise Unrecognised(f"likelihood assigned in {len(vals)} different ways")
-        return vals.pop()
-
-    guard("likBase", lambda: lik()[0])
-    guard("likGain", lambda: lik()[1])
-
-    def adj():
-        xs = [a for a in _assigns(_fn(qs(), "_bayesian_update"), "adjusted_likelihood")
-              if isinstance(a.value, ast.BinOp)]
-        if len(xs) != 1:
-            raise Unrecognised(f"{len(xs)} arithmetic assignments to adjusted_likelihood")
-        node = xs[0].value
-        if not (isinstance(node.op, ast.Add)):
-            raise Unrecognised("adjusted_likelihood is not a sum")
-        for k, prod in ((node.left, node.right), (node.right, node.left)):
-            if is_num(k) and isinstance(prod, ast.BinOp) and isinstance(prod.op, ast.Mult):
-                for d, w in ((prod.left, prod.right), (prod.right, prod.left)):
-                    if isinstance(w, ast.Name) and w.id == "weight" and isinstance(d, ast.BinOp) \
-                            and isinstance(d.op, ast.Sub) and isinstance(d.left, ast.Name) \
-                            and d.left.id == "likelihood" and is_num(d.right):
-                        return num(k), num(d.right)
-        raise Unrecognised("adjusted_likelihood is not K + (likelihood - C) * weight")
-
-    guard("adjBase", lambda: adj()[0])
-    guard("adjCentre", lambda: adj()[1])
-
-    def emergency_init():
-        return _fn(_cls(tree, "EmergencyQuorum"), "__init__")
+    def build(n, **kw):
+        with contextlib.redirect_stdout(io.StringIO()):
+            return module.EmergencyQuorum(n_agents=n, budget=ATP_Store(budget=1000, silent=True), silent=True, **kw)
 
     def em_default():
-        f = emergency_init()
-        args = f.args.args
-        defaults = f.args.defaults
-        named = dict(zip([a.arg for a in args][len(args) - len(defaults):], defaults))
-        for a, d in zip(f.args.kwonlyargs, f.args.kw_defaults):
-            if d is not None:
-                named[a.arg] = d
-        if "emergency_threshold" not in named:
+        p = inspect.signature(module.EmergencyQuorum.__init__).parameters.get("emergency_threshold")
+        if p is None or p.default is inspect.Parameter.empty:
             raise Unrecognised("emergency_threshold has no default")
-        return num(named["emergency_threshold"])
-
-    def super_call():
-        calls = [n for n in ast.walk(emergency_init()) if isinstance(n, ast.Call)
-                 and isinstance(n.func, ast.Attribute) and n.func.attr == "__init__"
-                 and isinstance(n.func.value, ast.Call) and isinstance(n.func.value.func, ast.Name)
-                 and n.func.value.func.id == "super"]
-        if len(calls) != 1:
-            raise Unrecognised(f"{len(calls)} super().__init__ calls")
-        return {k.arg: k.value for k in calls[0].keywords if k.arg}
+        return frac(p.default)
 
     def em_minvoters():
-        v = super_call().get("min_voters")
-        if v is None:
-            raise Unrecognised("min_voters not passed")
-        f = num(v)
-        if f.denominator != 1 or f < 0:
-            raise Unrecognised("min_voters is not a natural number")
-        return int(f)
+        vals = {build(n).min_voters for n in (0, 3)}
+        if len(vals) != 1 or not isinstance(next(iter(vals)), int) or next(iter(vals)) < 0:
+            raise Unrecognised(f"min_voters of EmergencyQuorum: {vals}")
+        return int(vals.pop())
 
     def em_strategy():
-        v = super_call().get("strategy")
-        if isinstance(v, ast.Attribute) and isinstance(v.value, ast.Name) and v.value.id == "VotingStrategy":
-            return v.attr
-        raise Unrecognised("strategy is not VotingStrategy.<NAME>")
+        vals = {build(n).strategy.name for n in (0, 3)}
+        if len(vals) != 1:
+            raise Unrecognised(f"strategy of EmergencyQuorum: {vals}")
+        return vals.pop()
 
     def em_passes():
-        v = super_call().get("threshold")
-        if isinstance(v, ast.Name) and v.id == "emergency_threshold":
-            return True
-        raise Unrecognised("threshold= is not the emergency_threshold parameter")
-
+        for n in (0, 3, 7):
+            for t in (0.77, 0.25, 2.0):
+                if build(n, emergency_threshold=t).custom_threshold != t:
+                    raise Inconsistent(f"EmergencyQuorum(n_agents={n}, emergency_threshold={t}) does not keep the "
+                                       f"threshold as custom_threshold")
+        d = em_default()
+        if frac(build(3).custom_threshold) != d:
+            raise Inconsistent("the default emergency_threshold does not arrive as custom_threshold")
+        return True
     guard("emergencyDefaultThreshold", em_default)
     guard("emergencyMinVoters", em_minvoters)
     guard("emergencyStrategyName", em_strategy)
     guard("emergencyPassesThreshold", em_passes)
     return facts
+
+
+def extract_facts(repo: Path, module=None) -> tuple[dict, dict]:
+    """(facts: name -> value | Exception, how: name -> which route established it)"""
+    names = list(DOCUMENTED)
+    how = {}
+    if module is None:
+        try:
+            import importlib
+            module = importlib.import_module("operon_ai.topology.quorum")
+        except Exception as e:  # noqa
+            return {n: Unrecognised(f"operon_ai.topology.quorum does not import: {e!r}") for n in names}, how
+    facts = evaluate_simple(module)
+    for n in facts:
+        how[n] = "evaluated"
+    # Bayesian group
+    a = b = None
+    try:
+        src = Path(inspect.getsourcefile(module) or (repo / "operon_ai" / "topology" / "quorum.py")).read_text()
+        a = ast_bayes(ast.parse(src), Namespace(module, module.QuorumSensing))
+    except Inconsistent as e:
+        a = e
+    except (Unrecognised, SyntaxError, OSError) as e:
+        a = Unrecognised(str(e))
+    try:
+        b = measure_bayes(module)
+    except Inconsistent as e:
+        b = e
+    except Unrecognised as e:
+        b = e
+    bad = next((x for x in (a, b) if isinstance(x, Inconsistent)), None)
+    if bad is None and isinstance(a, dict) and isinstance(b, dict):
+        same = all(a[k] == b[k] for k in ("posteriorFallback", "likBase", "likGain", "adjBase", "adjCentre")) and \
+            a["priorPermit"] * b["priorBlock"] == a["priorBlock"] * b["priorPermit"]
+        if not same:
+            bad = Inconsistent(f"source reading {a} and behavioural measurement {b} disagree")
+    for k in BAYES:
+        if bad is not None:
+            facts[k] = bad
+        elif isinstance(a, dict):
+            facts[k], how[k] = a[k], "ast+namespace" + (", confirmed by measurement" if isinstance(b, dict) else "")
+        elif isinstance(b, dict):
+            facts[k], how[k] = b[k], "measured"
+        else:
+            facts[k] = Unrecognised(f"source: {a}; measurement: {b}")
+    return {n: facts[n] for n in names}, how
 
 
 def lean_rat(f: Fraction) -> str:
@@ -242,43 +374,57 @@ def lean_rat(f: Fraction) -> str:
     return f"(({n} : Rat) / {f.denominator})"
 
 
-def render(facts: dict) -> str:
+def _lean_value(v) -> tuple[str, str]:
+    if isinstance(v, bool):
+        return "Bool", "true" if v else "false"
+    if isinstance(v, int):
+        return "Nat", str(v)
+    if isinstance(v, str):
+        return "String", '"' + "".join(ch for ch in v if ch.isalnum() or ch == "_") + '"'
+    return "Rat", lean_rat(v)
+
+
+def render(facts: dict, how: dict | None = None) -> str:
+    how = how or {}
     lines = [
         "/-",
         "  GENERATED by harness/vf/extract/quorum_consts.py from operon_ai/topology/quorum.py on every run of",
-        "  ./check C06 (extractor E5, quorum part).  Do not edit.  A fact the extractor could not recognise is an",
-        "  undefined identifier `extraction_failed_…`, which stops the model and every C06 theorem from elaborating.",
+        "  ./check C06 (extractor E5, quorum part).  Do not edit.  Always well-formed: a fact that could not be",
+        "  established carries its documented value and `recognised_… := false`; `extractionComplete` is what",
+        "  `c06_constants_table` requires.",
         "-/",
         "namespace Operon.Gen.Quorum",
         "",
     ]
+    ok_names = []
     for name, v in facts.items():
-        if isinstance(v, Unrecognised):
-            why = str(v).replace("\n", " ").replace("-/", "- /")[:160]
-            ty = {"emergencyMinVoters": "Nat", "emergencyStrategyName": "String",
-                  "emergencyPassesThreshold": "Bool"}.get(name, "Rat")
-            lines.append(f"-- NOT RECOGNISED: {why}")
-            lines.append(f"def {name} : {ty} := extraction_failed_{name}")
-        elif isinstance(v, bool):
-            lines.append(f"def {name} : Bool := {'true' if v else 'false'}")
-        elif isinstance(v, int):
-            lines.append(f"def {name} : Nat := {v}")
-        elif isinstance(v, str):
-            lines.append(f'def {name} : String := "{v}"')
-        else:
-            lines.append(f"def {name} : Rat := {lean_rat(v)}")
-    lines += ["", "end Operon.Gen.Quorum", ""]
+        ok = not isinstance(v, Exception)
+        if not ok:
+            why = str(v).replace("\n", " ").replace("-/", "- /").replace("/-", "/ -")[:200]
+            lines.append(f"-- NOT ESTABLISHED ({type(v).__name__}): {why}")
+            v = DOCUMENTED[name]
+        elif how.get(name):
+            lines.append(f"-- {how[name]}")
+        ty, val = _lean_value(v)
+        lines.append(f"def {name} : {ty} := {val}")
+        lines.append(f"def recognised_{name} : Bool := {'true' if ok else 'false'}")
+        ok_names.append(f"recognised_{name}")
+    lines += ["", "def extractionComplete : Bool :=", "  " + " && ".join(ok_names), "", "end Operon.Gen.Quorum", ""]
     return "\n".join(lines)
 
 
-def run(repo: Path, lean_dir: Path, write_if_changed) -> dict:
-    facts = extract_facts(repo)
-    changed = write_if_changed(lean_dir / OUT_REL, render(facts))
-    bad = sorted(k for k, v in facts.items() if isinstance(v, Unrecognised))
-    return {"id": "E5-quorum", "facts_changed": bool(changed), "facts": {k: (str(v) if not isinstance(v, Unrecognised) else "UNRECOGNISED") for k, v in facts.items()},
-            "unrecognised": bad}
+def run(repo: Path, lean_dir: Path, write_if_changed, module=None) -> dict:
+    facts, how = extract_facts(repo, module)
+    changed = write_if_changed(lean_dir / OUT_REL, render(facts, how))
+    bad = sorted(k for k, v in facts.items() if isinstance(v, Exception))
+    return {"id": "E5-quorum", "facts_changed": bool(changed),
+            "facts": {k: (str(v) if not isinstance(v, Exception) else f"NOT ESTABLISHED: {v}"[:160]) for k, v in facts.items()},
+            "how": how, "unrecognised": bad}
 
 
 if __name__ == "__main__":
     import sys
-    print(render(extract_facts(Path(sys.argv[1] if len(sys.argv) > 1 else "/repo"))))
+    root = Path(sys.argv[1] if len(sys.argv) > 1 else "/repo")
+    sys.path.insert(0, str(root))
+    f, h = extract_facts(root)
+    print(render(f, h))
